@@ -29,6 +29,7 @@ type replicaSys struct {
 	bugIds  []entity.Id // every bug created anywhere
 	log     []string    // the schedule, for replays
 	gens    map[entity.Id]*opGen
+	onlyBug entity.Id // when set, edits go to this bug
 	// statistics of this scenario
 	scen5, ffwd, newE, nothing int
 }
@@ -117,6 +118,9 @@ func (s *replicaSys) edit(rp *replica, n int) bool {
 	}
 	sort.Slice(ids, func(i, j int) bool { return ids[i] < ids[j] })
 	id := pickOne(s.r, ids)
+	if s.onlyBug != "" {
+		id = s.onlyBug
+	}
 	b, err := safeRead(rp.repo, id)
 	if err != nil {
 		s.c.violation(-1, "C01/unreadable", fmt.Sprintf("replica %s cannot read its own bug %s: %v (schedule %v)", rp.name, id.Human(), err, s.log), nil)
@@ -264,6 +268,29 @@ func (s *replicaSys) pullFrom(rp *replica, remote string, record bool) bool {
 			"author": string(mergeAuthor.Id()), "schedule": strings.Join(s.log, " ")},
 			map[string]any{"results": outs, "clockEdit": ce1, "clockCreate": cc1})
 		s.c.nontrivial(mustJSON(refs))
+	}
+	// ---- C05 on the real code: what was taken in is dominated by the clocks (read right after the merge,
+	// before the oracle below reads the bugs itself, which would witness them)
+	{
+		var me, mc uint64
+		for _, m := range refs {
+			if m.NewHash == "" {
+				continue
+			}
+			for _, cm := range dumpCommits(repo, repository.Hash(m.NewHash)) {
+				if cm.Pack != nil {
+					if cm.Pack.Edit > me {
+						me = cm.Pack.Edit
+					}
+					if cm.Pack.Create > mc {
+						mc = cm.Pack.Create
+					}
+				}
+			}
+		}
+		if ce1 < me || cc1 < mc {
+			s.c.violation(caseId, "C05/clock-below-stored", fmt.Sprintf("after the pull on %s the clocks stand at edit=%d create=%d, below times stored in what was merged (edit %d, create %d); schedule %v", rp.name, ce1, cc1, me, mc, s.log), nil)
+		}
 	}
 	// ---- C02 oracle on the real code
 	afterAll := s.readAllOps(rp)
